@@ -37,7 +37,7 @@ def gen_case(rng, tier, avoid):
         h, nm = gen.pick(rng, nfs)
         p = gen.payload(rng, cap, tiny_ok=tiny_ok)
         if not tiny_ok:
-            n = len(p) if isinstance(p, str) else len(list(p.values())[0]) // 2
+            n = len(p) if isinstance(p, str) else len(p['$text']) if '$text' in p else len(list(p.values())[0]) // 2
             if n + 3 + len(nm) < 12:
                 p = {'$bytes': rng.randbytes(12).hex()}
         spec.emit({'op': 'nf_data', 'lf': lfi['lf'], 'nf': {'$ref': h}, 'data': p, 'h': spec.h('nfr')})
@@ -49,6 +49,16 @@ def gen_case(rng, tier, avoid):
         second = []
         for op in rng.sample(recs, min(len(recs), rng.choice([1, 2]))):
             second.append({'op': 'set_prop', 'h': op['h'], 'prop': 'data', 'v': gen.payload(rng, cap, tiny_ok=tiny_ok)})
+        texts = [op for op in recs if isinstance(op['data'], dict) and '$text' in op['data']]
+        if texts and rng.random() < 0.6:
+            # run-time text replaced twice after the first write: the first text is no longer referenced by anything when the
+            # third one (of the same length) is built - what is written is the text the record holds NOW
+            second = []
+            for op in rng.sample(texts, min(len(texts), rng.choice([1, 2, 3]))):
+                n = len(op['data']['$text'])
+                for _ in range(rng.choice([2, 2, 3])):
+                    second.append({'op': 'set_prop', 'h': op['h'], 'prop': 'data',
+                                   'v': {'$text': ''.join(chr(32 + rng.randrange(95)) for _ in range(n))}})
         if rng.random() < 0.4:
             second.append({'op': 'set_prop', 'h': nfs[0][0], 'prop': 'name', 'v': 'RENAMED-NF'})
         if rng.random() < 0.3 and second and second[0]['prop'] == 'data':
